@@ -150,7 +150,7 @@ class Gen5(P.Gen):
         items = [(None, c), (up, c)] + [(None, k[1]) for k in keep]
         st["cols"] = [(None, c), (None, up)] + [(None, k[1]) for k in keep]
         return P.Step("casealias", "select {%s}" % ", ".join(("%s = %s" % (al, n)) if al else n for al, n in items),
-                      "TSelect [%s]" % "; ".join("(%s, ECol None %d%%N)" % (("Some %d%%N" % P.nid(al)) if al else "None", P.nid(n)) for al, n in items))
+                      "TSelect [%s]" % "; ".join("(%s, ECol None %d%%N)" % (("Some %d%%N" % P.nid(al)) if al else "None", P.nid(n)) for al, n in items), closed=True)
 
     def t_joinsplitpick(self, st):
         """after a join: force a sub-query split (derive then filter), then select same-named columns of both sides"""
@@ -171,6 +171,16 @@ class Gen5(P.Gen):
 
 
 TERMINAL = ("joinpick", "dupselect", "unnamedjoin", "unnamedpick")
+
+
+def frame_closed(pg):
+    """the final frame is fully known to the generator: the program ends in the closing select program() adds, in a terminal
+    kind that fixes the frame, or in the select form of casealias.  (A generator that was ASKED for a final select but stopped
+    early -- `derive {A = a}` of casealias -- leaves a wildcard in the frame: its columns are then known only from the rows.)"""
+    if not pg.steps:
+        return False
+    last = pg.steps[-1]
+    return last.kind in TERMINAL or bool(last.info.get("final")) or bool(last.info.get("closed"))
 EXCLUDING = ("sql.duckdb", "sql.bigquery", "sql.snowflake")     # dialects with `* EXCLUDE (..)` / `* EXCEPT (..)`
 
 
@@ -200,23 +210,42 @@ def classify(rec):
         last_select = sql[sql.rfind("SELECT "):]
         sel_list = last_select[:last_select.find(" FROM ")] if " FROM " in last_select else last_select
         # deduplicate_select_items only drops qualified identifiers (`x.col`) whose parts were all seen before
-        if ("joinpick" in kinds or "knownjoin" in kinds) and len(re.findall(r"\b\w+\"?\.\"?\w+\"?", sel_list)) >= 2:
+        if ("joinpick" in kinds or "knownjoin" in kinds) and len(re.findall(r"\b\w+[\"`]?\.[\"`]?\w+", sel_list)) >= 2:
             return "F13-duplicate-select-merged"
         if kinds and kinds[-1] == "dupselect":
             return "F13-duplicate-select-merged"
-    if rec["target"] in EXCLUDING and kinds.count("exclude") >= 2 and rec["verdict"] == "names":
-        # F43: of successive `select !{..}` only the last exclusion survives; the columns that come back are
-        # exactly columns excluded by an exclusion that is not the last one
+    if rec["target"] in EXCLUDING and rec["verdict"] == "names":
+        # columns that come back on a dialect WITH column exclusion.  Each must be explained:
+        # F43: it was excluded by an exclusion that is not the last one (only the last exclusion survives);
+        # F46: `sort | take | more`: a column the back end carries through the take's sub-query for its own use -- a plain sort key
+        #      the user excluded afterwards, or the `_expr_N` helper of a computed sort key -- is shown by the closing `SELECT *`
+        #      when another transform follows (the pass-through sub-query forgets what the star must hide)
+        steps = rec["program"].steps
         rn = rec["program"].meta.get("rename") or {}
-        exs = [st.info.get("ex", []) for st in rec["program"].steps if st.kind == "exclude"]
-        earlier = {rn.get(c, c) for e in exs[:-1] for c in e}
+        exs = [(i, st.info.get("ex", [])) for i, st in enumerate(steps) if st.kind == "exclude"]
+        earlier = {rn.get(c, c) for _, e in exs[:-1] for c in e}
+        carried = set()
+        for i, e in exs:
+            if i == len(steps) - 1:
+                continue
+            for j, st in enumerate(steps[:i]):
+                if (st.kind == "sort" and any(x.kind in ("take", "group_take") for x in steps[j + 1:i])) or st.kind == "group_take":
+                    carried |= {rn.get(k[2], k[2]) for _, k in (st.info.get("keys") or []) if k[0] == "col" and k[2] in e}
+        helper_ok = False
+        for j, st in enumerate(steps):
+            if st.kind == "sort" and any(k[0] != "col" for _, k in (st.info.get("keys") or [])):
+                takes = [i for i in range(j + 1, len(steps)) if steps[i].kind == "take"]
+                if takes and takes[0] < len(steps) - 1:
+                    helper_ok = True
         want = [rn.get(w, w) for w in (rec.get("model_names") or []) if w is not None]
         extra = list(cols)
         for w in want:
             if w in extra:
                 extra.remove(w)
-        if extra and len(cols) == len(rec.get("model_names") or []) + len(extra) and all(c in earlier for c in extra):
-            return "F43-earlier-exclusion-lost"
+        is_helper = lambda c: helper_ok and re.fullmatch(r"_expr_\d+", c) and re.search(r" AS [\"`]?%s\b" % c, sql) \
+            and re.search(r"AS \(SELECT \* FROM [\"`]?table_\d+[\"`]?\)", sql)
+        if extra and len(cols) == len(rec.get("model_names") or []) + len(extra) and all(c in earlier or c in carried or is_helper(c) for c in extra):
+            return "F43-earlier-exclusion-lost" if any(c in earlier for c in extra) else "F46-carried-column-shown-behind-take"
     if ("group_take" in kinds or "group_win" in kinds) and not rec["program"].meta.get("final_select", True) and re.search(r"SELECT (DISTINCT ON \([^)]*\) )?\*", sql):
         return "F26-group-keys-first-vs-star"
     return None
@@ -436,9 +465,9 @@ def run():
     for i in range(n):
         fs = rng.random() < 0.5
         pg = g.program(final_select=fs)
-        terminal = bool(pg.steps) and pg.steps[-1].kind in TERMINAL   # frame fully known, no closing select
-        pg.meta["final_select"] = fs or terminal
-        if not (fs or terminal):
+        closed = frame_closed(pg)
+        pg.meta["final_select"] = closed
+        if not closed:
             pg.final_cols = None
         inst = P.gen_instance(rng, max_rows=5, min_rows=2, extra=("zz",))
         if rng.random() < 0.3:
@@ -450,9 +479,9 @@ def run():
     def add(force, fs, rename=False, k=1):
         for _ in range(k):
             pg = g.program(n_steps=len(force) + rng.randint(0, 1), force=list(force), final_select=fs)
-            terminal = bool(pg.steps) and pg.steps[-1].kind in TERMINAL
-            pg.meta["final_select"] = fs or terminal
-            if not (fs or terminal):
+            closed = frame_closed(pg)
+            pg.meta["final_select"] = closed
+            if not closed:
                 pg.final_cols = None
             inst = P.gen_instance(rng, max_rows=5, min_rows=2, extra=("zz",))
             if rename:
